@@ -13,11 +13,34 @@ Proof.
   rewrite Forall_forall in Hf. specialize (Hf b Hin). lia.
 Qed.
 
+(* the write step, both orders *)
+Lemma write_mapping_spec {data : Type} (sf : bool) (d : data) (open_ok dump_ok : bool) (st : fs data) :
+  let '(o, st') := write_mapping sf d open_ok dump_ok st in
+  fs_umask st' = fs_umask st /\
+  (o = Saved <-> open_ok = true /\ dump_ok = true) /\
+  (o = Saved -> exists m, fs_file st' = Some (m, CData d) /\ (fs_file st = None -> m = 420%N) /\
+                          (forall m0 c, fs_file st = Some (m0, c) -> m = m0)) /\
+  (open_ok = false -> fs_file st' = fs_file st) /\
+  (* serialized before the file is opened: a failing dump leaves the file untouched *)
+  (sf = true -> dump_ok = false -> st' = st /\ o = BodyFailed) /\
+  (* dumped into the opened file: a failing dump leaves it truncated *)
+  (sf = false -> open_ok = true -> dump_ok = false -> o = BodyFailed /\ exists m, fs_file st' = Some (m, CTruncated)).
+Proof.
+  destruct st as [u f]. unfold write_mapping, open_file_and_dump, sys_umask, sys_open_creat_trunc, sys_write_all, FILE_PERMISSION.
+  destruct sf, open_ok, dump_ok, f as [[m c] |]; cbn;
+    repeat split; intros; try discriminate; try tauto; eauto;
+    try (match goal with H : _ /\ _ |- _ => destruct H; discriminate end);
+    try (eexists; split; [reflexivity |]; split; intros;
+         try discriminate; try reflexivity;
+         match goal with H : Some _ = Some _ |- _ => inversion H; subst; reflexivity end).
+Qed.
+
 (* what a successful call leaves: the umask as before, a file holding exactly one entry per selected
    frame, keyed by the frame's distance from the failing frame (distinct keys), each entry with the
-   frame's own metadata and its filtered locals; a refused call leaves everything untouched *)
-Theorem saveframe_end_to_end rx valid pk script esc fa va ea cur e open_ok dump_ok (st : fs saved) res st' :
-  saveframe rx valid pk script esc fa va ea cur e open_ok dump_ok st = (res, st') ->
+   frame's own metadata and its filtered locals; a refused call leaves everything untouched; with the
+   C17-N1 repair the call cannot fail on the exception object and never leaves a truncated file *)
+Theorem saveframe_end_to_end rx valid pk script esc n1 fa va ea cur e open_ok exc_pk (st : fs saved) res st' :
+  saveframe rx valid pk script esc n1 fa va ea cur e open_ok exc_pk st = (res, st') ->
   fs_umask st' = fs_umask st /\
   match res with
   | Err _ => st' = st
@@ -32,7 +55,8 @@ Theorem saveframe_end_to_end rx valid pk script esc fa va ea cur e open_ok dump_
             s_file s = f_file f /\ s_line s = f_line f /\ s_func s = f_func f /\ s_qual s = f_qual f /\
             s_vars s = local_variables_data pk (f_locals f) inc exc) /\
         (o = Saved -> exists m, fs_file st' = Some (m, CData d) /\ (fs_file st = None -> m = 420%N)) /\
-        (o = Saved <-> open_ok = true /\ dump_ok = true)
+        (o = Saved <-> open_ok = true /\ (n1 = true \/ exc_pk = true)) /\
+        (open_ok = false -> fs_file st' = fs_file st)
   end.
 Proof.
   unfold saveframe. unfold saved in *.
@@ -41,10 +65,10 @@ Proof.
   unfold frames_and_info.
   destruct (get_frames_to_save rx sel (all_frames_from_exception e)) as [entries | er] eqn:Es; cbn [bind].
   2:{ intros H. inversion H. now split. }
-  pose proof (mode_0644 (list saved_frame) (map (frame_metadata pk inc exc) entries) open_ok dump_ok st) as Hm.
-  destruct (open_file_and_dump (map (frame_metadata pk inc exc) entries) open_ok dump_ok st) as [o st2] eqn:Eo.
+  pose proof (write_mapping_spec n1 (map (frame_metadata pk inc exc) entries) open_ok (mapping_dump_ok n1 exc_pk) st) as Hm.
+  destruct (write_mapping n1 (map (frame_metadata pk inc exc) entries) open_ok (mapping_dump_ok n1 exc_pk) st) as [o st2] eqn:Eo.
   intros H. inversion H. subst res st'. clear H.
-  destruct Hm as (Hu & Hnew & Hold & Hfail & Hok & Hbad). split; [exact Hu |].
+  destruct Hm as (Hu & Hiff & Hsaved & Hopen & _ & _). split; [exact Hu |].
   exists sel, inc, exc, entries. split; [first [reflexivity | exact Ev] |]. split; [first [reflexivity | exact Es] |]. split; [reflexivity |].
   destruct (keys_are_distances _ _ _ _ Es) as [Hk Hs]. split.
   - rewrite map_map. cbn [frame_metadata s_index]. apply sorted_lt_NoDup. exact Hs.
@@ -53,16 +77,40 @@ Proof.
       destruct (Hk _ _ Hin) as [H1 H2]. cbn [frame_metadata s_index s_file s_line s_func s_qual s_vars fst snd].
       repeat split; assumption.
     + split.
-      * intros ->. destruct open_ok.
-        -- destruct dump_ok.
-           ++ destruct (Hok eq_refl eq_refl) as [_ (m & Hfile)]. exists m. split; [exact Hfile |].
-              intros Hnone. destruct (Hnew Hnone eq_refl) as (c & Hc). rewrite Hfile in Hc. now inversion Hc.
-           ++ destruct (Hbad eq_refl eq_refl) as [Ho _]. discriminate.
-        -- destruct (Hfail eq_refl) as [_ Ho]. discriminate.
-      * split.
-        -- intros ->. destruct open_ok, dump_ok; try (split; reflexivity).
-           ++ destruct (Hbad eq_refl eq_refl) as [Ho _]. discriminate.
-           ++ destruct (Hfail eq_refl) as [_ Ho]. discriminate.
-           ++ destruct (Hfail eq_refl) as [_ Ho]. discriminate.
-        -- intros [-> ->]. now destruct (Hok eq_refl eq_refl).
+      * intros Ho. destruct (Hsaved Ho) as (m & Hf & Hn & _). exists m. now split.
+      * split; [| exact Hopen]. rewrite Hiff. unfold mapping_dump_ok. destruct n1, exc_pk; cbn [orb]; intuition discriminate.
+Qed.
+
+(* C17-N1 repaired: the exception object never makes the save fail, and no path leaves a truncated file *)
+Theorem n1_repaired_never_truncates rx valid pk script esc fa va ea cur e open_ok exc_pk (st : fs saved) o d st' :
+  saveframe rx valid pk script esc true fa va ea cur e open_ok exc_pk st = (Ok (o, d), st') ->
+  (open_ok = true -> o = Saved) /\
+  (forall m, fs_file st' <> Some (m, CTruncated) \/ fs_file st = Some (m, CTruncated)).
+Proof.
+  unfold saveframe. unfold saved in *.
+  destruct (bind (validate_arguments valid script (default_frames esc fa cur) va ea) _) as [d0 | er]; [| discriminate].
+  unfold mapping_dump_ok. cbn [orb].
+  pose proof (write_mapping_spec true d0 open_ok true st) as Hm.
+  destruct (write_mapping true d0 open_ok true st) as [o0 st2] eqn:Eo.
+  intros H. inversion H. subst o0 d0 st2. clear H.
+  destruct Hm as (_ & Hiff & Hsaved & Hopen & _ & _). split.
+  - intros ->. now apply Hiff.
+  - intros m. destruct open_ok.
+    + left. destruct (Hsaved (proj2 Hiff (conj eq_refl eq_refl))) as (m' & Hf & _). rewrite Hf. discriminate.
+    + rewrite (Hopen eq_refl). destruct (fs_file st) as [[m0 [| | x]] |]; try (left; discriminate).
+      destruct (N.eq_dec m0 m) as [-> | Hne]; [now right | left; congruence].
+Qed.
+
+(* C17-N1 as the code was: an unpicklable exception object leaves a truncated file and nothing saved *)
+Theorem n1_unrepaired_truncates rx valid pk script esc fa va ea cur e (st : fs saved) o d st' :
+  saveframe rx valid pk script esc false fa va ea cur e true false st = (Ok (o, d), st') ->
+  o = BodyFailed /\ exists m, fs_file st' = Some (m, CTruncated).
+Proof.
+  unfold saveframe. unfold saved in *.
+  destruct (bind (validate_arguments valid script (default_frames esc fa cur) va ea) _) as [d0 | er]; [| discriminate].
+  unfold mapping_dump_ok. cbn [orb].
+  pose proof (write_mapping_spec false d0 true false st) as Hm.
+  destruct (write_mapping false d0 true false st) as [o0 st2] eqn:Eo.
+  intros H. inversion H. subst o0 d0 st2. clear H.
+  destruct Hm as (_ & _ & _ & _ & _ & Hbad). exact (Hbad eq_refl eq_refl eq_refl).
 Qed.
